@@ -113,7 +113,21 @@ def gen_case(rng, tier):
     style = rng.choice(['flow', 'block'])
     seed = rng.randrange(1 << 30)
     r2 = random.Random(seed)
-    return {'docs': docs, 'texts': [emit.emit(d, style, flow_pred=lambda n: r2.random() < 0.3) for d in docs]}
+    case = {'docs': docs, 'texts': [emit.emit(d, style, flow_pred=lambda n: r2.random() < 0.3) for d in docs]}
+    if len(docs) >= 3 and rng.random() < 0.08 and not any(d.get('prio') for d in docs):
+        # a container first written below a !weak tag absorbs an untagged writer (a new key) in a later stage; a still later !weak scalar aimed at
+        # the container itself is weaker than that untagged writer: the untagged leaf stays (round 9, C03-i).  Only this one consequence of the
+        # statement is asserted (what becomes of the container's weak entries is a shape conflict the statement is silent about), on copies of the
+        # documents, so that the winner table of the main check is not involved.
+        i, j, k = sorted(rng.sample(range(len(docs)), 3))
+        import copy
+        d2 = copy.deepcopy(docs)
+        leaf = mk.next(rng, 's')
+        d2[i]['items'].append(['sc9', M([['x', S(mk.next(rng, 's'))]], prio=-1)])
+        d2[j]['items'].append(['sc9', M([['y', S(leaf)]])])
+        d2[k]['items'].append(['sc9', S(mk.next(rng, 's'), prio=-1)])
+        case['anc'] = {'texts': [emit.emit(d, 'block') for d in d2], 'leaf': leaf, 'stages': [i, j, k]}
+    return case
 
 
 def expected(docs):
@@ -205,6 +219,18 @@ def run(case):
                         break
                     if allkeys:
                         feats.append('metadata_checked')
+    if case.get('anc'):
+        feats.append('weak_scalar_over_container_with_untagged_leaf')
+        a = case['anc']
+        from awesomeyaml.config import Config as _C
+        o2 = lib.outcome(lambda: c05plain(_C(lib.merged(a['texts']))))
+        if o2[0] == 'err':
+            vio.append({'mech': 'build-fails', 'what': f'build {lib.describe(o2)}; texts={a["texts"]!r}'})
+        else:
+            sc = o2[1].get('sc9')
+            if not (isinstance(sc, dict) and sc.get('y') == a['leaf']):
+                vio.append({'mech': 'weaker-ancestor-writer-erases-untagged-leaf', 'what': f'untagged leaf sc9.y={a["leaf"]!r} (stage {a["stages"][1]}) erased by the later !weak '
+                            f'scalar written at sc9 (stage {a["stages"][2]}): sc9={util.short(sc, 200)}; texts={a["texts"]!r}'})
     res = {'status': 'violation' if vio else 'ok', 'nontrivial': contested > 0, 'feats': feats, 'sig': util.sig(texts)}
     if vio:
         res['violations'] = vio
